@@ -85,7 +85,21 @@ func OrderCase(r *sim.R, run func(op string, detail map[string]string, kindsComp
 	}
 	r.Tracef("type %s", describeType(e.S, ""))
 	r.Tracef("config %v (%s)", in, what)
-	run("Unpack(typed)", map[string]string{"overlap": "false", "absorbed_cycle": "false", "alt_absorbed_cycle": "false"}, true, func() (string, string, uint64) {
+	// Which of several independently failing settings the error reports may depend on the order
+	// (C09 demands the same kind of error for one cause): kinds are compared only when the case
+	// has at most one cause of failure - one corrupted setting, or one value breaking a built-in
+	// validator of its field.
+	want := reflect.New(e.S.Type).Elem()
+	e.C.expect(want, true)
+	bad := boundViolations(e.C, want, true)
+	hasBound := false
+	e.C.walk(true, func(fc *FieldCase, _ bool) {
+		if fc.F.Bound != "" {
+			hasBound = true
+		}
+	})
+	oneCause := !(len(bad) > 1 || (what != "fault-free" && hasBound))
+	run("Unpack(typed)", map[string]string{"overlap": "false", "absorbed_cycle": "false", "alt_absorbed_cycle": "false"}, oneCause, func() (string, string, uint64) {
 		save := r.Order
 		r.Order = sim.OrderSorted
 		cfg, err := ucfg.NewFrom(in, e.Opts...)
